@@ -123,7 +123,7 @@ func runC11(c *Check) {
 			// for this subscription
 			okSub := AllOrigins(g.Call.Args[0], func(v ssa.Value) bool {
 				a, isA := v.(*ssa.Alloc)
-				return isA && NamedOf(a.Type()) == r.S && a.Parent() == r.Subscribe
+				return isA && NamedOf(a.Type()) == r.S && HomeFn(a.Parent()) == r.Subscribe
 			})
 			c.Report(okSub, P+".O3", "REPLAY-TO-NEW-SUBSCRIPTION", R, g.Pos(), "go deliver", "the replay goes to the subscription being created")
 		}
@@ -131,7 +131,7 @@ func runC11(c *Check) {
 	for _, ad := range Callers(r.Funcs, r.AddSub) {
 		okSub := AllOrigins(ad.Common().Args[2], func(v ssa.Value) bool {
 			a, isA := v.(*ssa.Alloc)
-			return isA && NamedOf(a.Type()) == r.S && a.Parent() == r.Subscribe
+			return isA && NamedOf(a.Type()) == r.S && HomeFn(a.Parent()) == r.Subscribe
 		})
 		c.Report(okSub, P+".O3", "REGISTER-NEW-SUBSCRIPTION", ad.Parent(), ad.Pos(), "registration", "the subscription being created is what gets registered")
 	}
